@@ -24,8 +24,11 @@ _path, _ms = pure_gen.generate()
 _TUS = [_path] + T1[1:] + ['objects/surface', 'kd_tree', 'features/feature_utilities', 'objects/distance_from_surface'] + sorted(set(m['tu'] for m in _ms)) \
        + sorted(set('features/%s_models/%s/interface' % (m['family'], m['kind']) for m in _ms))
 _skip = [i for i, m in enumerate(_ms) if m['cls'] == 'MassConserving']       # thousands of paths: thorough tier only
-OBLIGATIONS.append(dict(id='C14.pure.models', harness=_path, entry='h_pure_model', mode='fpa', cases=[(i,) for i in range(len(_ms)) if i not in _skip], cases_thorough=[(i,) for i in range(len(_ms))], expect=['end'], tus=_TUS, native=False, allow_throw=True, slicing=False, time_cap=270,
+OBLIGATIONS.append(dict(id='C14.pure.models', harness=_path, entry='h_pure_model', mode='fpa', cases=[(i,) for i in range(len(_ms)) if i not in _skip], cases_thorough=[(i,) for i in range(len(_ms))], expect=['end'], tus=_TUS, native=False, allow_throw=True, slicing=False, time_cap=270, time_cap_thorough=1500, eager_writes=True,
     bounds='all %d model classes found under include/world_builder/features/*_models (list regenerated from the tree on every run): %s' % (len(_ms), ', '.join('%s/%s/%s' % (m['family'], m['kind'], m['cls']) for m in _ms)),
     stubs=['Parameters API stub (every list of length 1, ridge of 2 points)', 'World::properties (recursive queries of the water-content models), calculate_ridge_distance_and_spreading and Surface::local_value return arbitrary values',
            'arithmetic results abstracted (fpa): only the write-set, memory safety and termination are claimed'],
     assumes=['random models may write the world\'s random engine (excluded from C14 by the statement)'], outside=['the slab/fault/area feature property functions themselves (C02/C06 harnesses)']))
+# the non-default "apply spline" branch of the mass conserving slab temperature (thorough tier only: thousands of paths); stores are reported where they happen
+OBLIGATIONS.append(dict(OBLIGATIONS[-1], id='C14.pure.spline', entry='h_pure_model_spline', cases=[], cases_thorough=[(i,) for i in _skip], expect=[], time_cap_thorough=2400,
+    bounds='mass conserving slab temperature with "apply spline": true and 2 spline points per side; the write-set is reported at the store, so paths cut by the time cap still count'))
